@@ -1,4 +1,5 @@
 """L1 history + implementation observations -> Gallina term of type Eval_L1.case."""
+import json
 from lib import gN, gbool, glist, gopt
 import l1
 
@@ -163,8 +164,14 @@ def enc_reply(o):
     return [999, t or 0]
 
 
-def obs_term(o, shutdown=None):
+def obs_term(o, shutdown=None, full=True):
     crash = "panic" in o or bool(o.get("blocked"))
+    if not full:
+        pools = o.get("pools", {})
+        markers = glist([nl([m.get("src") or 0, m.get("dst") or 0, m.get("teid") or 0]) for m in o.get("markers", [])])
+        sd = bool(o.get("done")) if shutdown is None else shutdown
+        ncmds = len([c for c in o.get("cmds", []) if c["c"] != "clear"])
+        return (f"(Obs false {gbool(crash)} {nl(enc_reply(o))} {n(ncmds)} [] [] [] 0 [] {n(pools.get('gauge', 0))} {markers} {gbool(sd)} [])")
     tabs = []
     for m, code in MOD_CODE.items():
         for k, v in o.get("tables", {}).get(m, []):
@@ -181,7 +188,7 @@ def obs_term(o, shutdown=None):
     for ci, rows in pools.get("pfd_ids", {}).items():
         pf.append(f"({n(ci)}, {glist([f'({n(r[0])}, {nl(r[1])})' for r in rows])})")
     ncmds = len([c for c in o.get("cmds", []) if c["c"] != "clear"])
-    return (f"(Obs {gbool(crash)} {nl(enc_reply(o))} {n(ncmds)} {glist(tabs)} {glist(store)} {inv} {n(pools.get('ip_free', 0))} "
+    return (f"(Obs true {gbool(crash)} {nl(enc_reply(o))} {n(ncmds)} {glist(tabs)} {glist(store)} {inv} {n(pools.get('ip_free', 0))} "
             f"{nl(pools.get('teids', []))} {n(pools.get('gauge', 0))} {markers} {gbool(sd)} {glist(pf)})")
 
 
@@ -228,14 +235,22 @@ def ipn(s):
 
 def case_term(case, obs):
     evs = []
-    for e, o in zip(case["events"], obs):
+    prev_state = None
+    last = min(len(case["events"]), len(obs)) - 1
+    for idx, (e, o) in enumerate(zip(case["events"], obs)):
+        state = json.dumps([o.get("tables"), o.get("store"), o.get("pools")], sort_keys=True)
+        # number literals dominate coqc's time: the full state is compared at the last event, after teardown /
+        # restart, after every rejected modification (slice aliasing) and at every 5th event that changed it
+        rej_mod = (o.get("sem") or {}).get("t") == "mod" and (enc_reply(o) + [0, 0, 0])[2] != 1
+        full = idx == last or e["k"] != "msg" or (rej_mod and state != prev_state) or (idx % 5 == 4 and state != prev_state)
+        prev_state = state
         if e["k"] == "msg":
             if (o.get("sem") or {}).get("t") == "decoder-panic":
                 return None
             if "sem" not in o:
                 # the event panicked or blocked before the decoder ran: model input unavailable
                 return None
-            evs.append(f"EvMsg {n(e['conn'])} {gbool(o.get('connected', True))} {msg(o['sem'])} {nl(o.get('draws', []))} {obs_term(o)}")
+            evs.append(f"EvMsg {n(e['conn'])} {gbool(o.get('connected', True))} {msg(o['sem'])} {nl(o.get('draws', []))} {obs_term(o, full=full)}")
         elif e["k"] == "teardown":
             evs.append(f"EvTeardown {n(e['conn'])} {obs_term(o, shutdown=True)}")
         elif e["k"] == "restart":
